@@ -188,7 +188,11 @@ func (c *FCtx) execStmt(st *State, s ast.Stmt, rest []ast.Stmt) (flows []Flow) {
 		if st.dead {
 			return nil
 		}
-		return []Flow{{st: st, kind: fReturn, results: res, pos: c.eng.pos(x)}}
+		rp := x.Pos()
+		if c.inlineDepth > 0 {
+			rp = token.NoPos
+		}
+		return []Flow{{st: st, kind: fReturn, results: res, pos: c.eng.pos(x), retPos: rp}}
 	case *ast.BranchStmt:
 		switch x.Tok {
 		case token.BREAK:
